@@ -94,13 +94,19 @@ def gen_cfg(seed: int, faulty: typing.Optional[bool] = None) -> dict:
         if faulty and rng.random() < 0.3:
             req['delay'] = rng.choice([0.01, 0.5, 2.5, 11.0])
         requests.append(req)
+    commits = []
+    for app in apps:
+        if app['kind'] == 'latest' and rng.random() < 0.5 and not burst:
+            for k in range(rng.randint(1, 2)):
+                commits.append({'at': round(rng.random() * 3, 3), 'project': app['project'], 'value': 7000 + 13 * len(commits)})
+    commits.sort(key=lambda c: c['at'])
     faults = {}
     if faulty:
         for kind, p in (('spurious-timeout', 0.05), ('stall', 0.002)):
             if rng.random() < 0.5:
                 faults[kind] = p
     return {
-        'seed': seed, 'faulty': faulty, 'apps': apps, 'requests': requests,
+        'seed': seed, 'faulty': faulty, 'apps': apps, 'requests': requests, 'commits': commits,
         'processes': rng.randint(1, 4),
         'kernel': {'policy': rng.choice(['random', 'random', 'pct']), 'preempt_p': rng.choice([0.02, 0.1, 0.3, 0.6]),
                    'pct_depth': rng.randint(1, 5), 'pct_horizon': rng.choice([300, 1500, 6000]), 'faults': faults,
@@ -136,7 +142,15 @@ def make_request(req: dict) -> layout.Request:
 def simulate(cfg: dict, schedule: typing.Optional[list] = None) -> dict:
     logging.disable(logging.CRITICAL)
     template = TEMPLATE
-    registry = posix.Registry(template / 'registry', staging=template / 'staging')
+    rundir = None
+    if cfg.get('commits'):
+        # new generations will appear while serving: work on a private copy of the trained template
+        rundir = pathlib.Path(tempfile.mkdtemp(prefix='c16-run-', dir=serving.scratch_parent()))
+        shutil.copytree(template / 'registry', rundir / 'registry')
+        registry = posix.Registry(rundir / 'registry', staging=template / 'staging')
+    else:
+        registry = posix.Registry(template / 'registry', staging=template / 'staging')
+    committed: list = []  # (virtual time, project, generation, state value)
     inventory = serving.Inventory([application.Generic(a['name'], make_selector(a)) for a in cfg['apps']])
     serving.DELAYS.clear()
     serving.DELAYS.update({r['rid']: r['delay'] for r in cfg['requests'] if r['delay']})
@@ -177,6 +191,24 @@ def simulate(cfg: dict, schedule: typing.Optional[list] = None) -> dict:
             rec['t1'] = kernel.now
             kernel.note('response', f'{req["rid"]}:{rec["status"]}')
 
+        def trainer():
+            import cloudpickle  # pylint: disable=import-outside-toplevel
+            from forml.io import asset  # pylint: disable=import-outside-toplevel
+
+            writer = posix.Registry(rundir / 'registry', staging=template / 'staging')
+            for commit in cfg['commits']:
+                if commit['at'] > kernel.now:
+                    kernel.sleep(commit['at'] - kernel.now, 'trainer.wait')
+                instance = asset.Instance(commit['project'], max(RELEASES, key=int), None, asset.Directory(writer))
+                accessor = instance.state([0], instance.tag.training.trigger())
+                accessor.commit([accessor.dump(cloudpickle.dumps(commit['value']))])
+                committed.append((kernel.now, commit['project'], int(accessor._generation.key), commit['value']))  # pylint: disable=protected-access
+                kernel.note('committed', f'{commit["project"]}:{committed[-1][2]}')
+                kernel.probe('generation-committed-while-serving')
+
+        if cfg.get('commits'):
+            kernel.spawn(trainer, 'trainer', 'process')
+
         async def amain():
             tasks = [asyncio.ensure_future(client(r)) for r in cfg['requests']]
             last = max((r['offset'] for r in cfg['requests']), default=0.0)
@@ -194,7 +226,10 @@ def simulate(cfg: dict, schedule: typing.Optional[list] = None) -> dict:
         outcome = f'deadlock: {err}'
     except kmod.StepBudget as err:
         outcome = f'step-budget: {err}'
-    return {'records': records, 'outcome': outcome, 'pending': state['pending'], 'steps': kernel.step,
+    finally:
+        if rundir:
+            shutil.rmtree(rundir, ignore_errors=True)
+    return {'committed': committed, 'stalled': sum(kernel.stalled.values()), 'records': records, 'outcome': outcome, 'pending': state['pending'], 'steps': kernel.step,
             'vtime': kernel.now, 'switches': kernel.switches, 'stats': dict(kernel.stats),
             'probes': dict(kernel.probes), 'digest': kernel.digest(), 'decisions': kernel.decisions,
             'ntasks': len(kernel.tasks)}
@@ -212,9 +247,18 @@ EXPECTED_EXC = {  # failing request kind -> acceptable platform error classes
 }
 
 
-def allowed_instances(app: dict) -> list[list]:
+def allowed_instances(app: dict, rec: typing.Optional[dict] = None, result: typing.Optional[dict] = None) -> list[list]:
     if app['kind'] == 'latest':
-        return [[app['project'], max(RELEASES, key=int), GENERATIONS]]
+        top = max(RELEASES, key=int)
+        out = [[app['project'], top, GENERATIONS]]
+        if rec and result:
+            # every generation that was the latest at some instant of [invoke - refresh - stalls, return]
+            lo = rec['t0'] - app['refresh'] - result.get('stalled', 0.0) - 1e-9
+            mine = [c for c in result.get('committed', []) if c[1] == app['project']]
+            before = [c for c in mine if c[0] < lo]
+            inside = [c for c in mine if lo <= c[0] <= rec.get('t1', rec['t0']) + 1e-9]
+            out = ([[app['project'], top, before[-1][2]]] if before else out) + [[app['project'], top, c[2]] for c in inside]
+        return out
     if app['kind'] == 'explicit':
         return [[app['project'], app['release'], app['generation']]]
     return [[app['project'], v['release'], v['generation']] for v in app['variants']]
@@ -250,15 +294,20 @@ def judge(cfg: dict, result: dict) -> list[dict]:
             out.append({'class': 'spurious-failure', 'rid': req['rid'], 'exc': rec['exc'],
                         'detail': f'valid request {req["rid"]} to {app["name"]} failed with {rec["exc"]}: {rec["msg"]}'})
             continue
-        if rec['instance'] not in allowed_instances(app):
+        if rec['instance'] not in allowed_instances(app, rec, result):
             out.append({'class': 'wrong-instance', 'rid': req['rid'],
-                        'detail': f'request {req["rid"]} to {app["name"]} ({app["kind"]}) served by {rec["instance"]}, '
-                                  f'allowed {allowed_instances(app)}'})
+                        'detail': f'request {req["rid"]} to {app["name"]} ({app["kind"]}) at t=[{rec["t0"]}, {rec.get("t1")}] '
+                                  f'served by {rec["instance"]}, allowed {allowed_instances(app, rec, result)}'})
             continue
         project, release, generation = rec['instance']
-        want = serving.expected_rows(req['rid'], req['nrows'], req['vals'],
-                                     serving.expected_state(project, release, generation),
-                                     serving.bias_of(project, release))
+        state = next((c[3] for c in result.get('committed', []) if c[1] == project and c[2] == generation
+                      and release == max(RELEASES, key=int)), None)
+        if state is None:
+            state = serving.expected_state(project, release, generation)
+        else:
+            result.setdefault('served_by_new_generation', 0)
+            result['served_by_new_generation'] += 1
+        want = serving.expected_rows(req['rid'], req['nrows'], req['vals'], state, serving.bias_of(project, release))
         expect_by_rid[req['rid']] = want
         try:
             got = [list(r.values())[0] for r in json.loads(rec['payload'])]
@@ -288,6 +337,7 @@ def run_seed(job) -> dict:
     except runmod.RunFailed as err:
         out['harness'] = str(err)[:1500]
         return out
+    result['probes']['answered-by-a-generation-committed-while-serving'] = result.get('served_by_new_generation', 0)
     out.update(digest=result['digest'], steps=result['steps'], vtime=result['vtime'], switches=result['switches'],
                stats=result['stats'], probes=result['probes'], nreq=len(cfg['requests']), ntasks=result['ntasks'],
                faulty=cfg['faulty'], ndecisions=len(result['decisions']))
